@@ -185,13 +185,6 @@ fn resolve_shape(len: usize, r: i32, c: i32) -> Option<(usize, usize)> {
     }
 }
 
-enum Out {
-    /// nothing to compare beyond the pool state
-    Done,
-    /// expected a rejection, did not get one (or vice versa)
-    Bad(&'static str, String),
-}
-
 struct World {
     ms: Vec<Matrix>,
     mm: Vec<MM>,
